@@ -273,8 +273,14 @@ func c03One(c *h.Ctx, id string, cs *pkt.Case, r *rand.Rand) {
 		} else if len(cuts) > 1 {
 			tag = "segmented-multi"
 		}
+		nBuf := len(w)
 		got := check(tag, func() enc.ParseReader { return enc.NewWireReader(w) }, nseg%5 == 4)
 		nseg++
+		// the wire belongs to the caller (an engine keeps it to answer later Interests, a store keeps it
+		// on behalf of the application): decoding from it must leave it as it was, buffer by buffer
+		if after := pkt.Segment(b, cuts); len(w) != nBuf || !bytes.Equal(w.Join(), b) || !c03SameBuffers(w, after) {
+			c.Violation("C03:decoding-modifies-the-wire:"+cs.Kind+":"+tag, id, fmt.Sprintf("after decoding from a wire of %d buffers (cuts %v) that wire joins to %d bytes in %d buffers; it held %d bytes", nBuf, cuts, len(w.Join()), len(w), len(b)), desc)
+		}
 		if got != nil && base != nil && !bytes.Equal(got.SigCovered, base.SigCovered) {
 			c.Violation("C03:sigcovered-differs:"+cs.Kind+":"+tag, id, "signed portion returned by the decoder depends on the segmentation", desc)
 		}
@@ -284,6 +290,19 @@ func c03One(c *h.Ctx, id string, cs *pkt.Case, r *rand.Rand) {
 	}
 	c.Count("segmentations", int64(nseg))
 	c.Sample(cs.Describe())
+}
+
+// c03SameBuffers: same number of buffers with the same contents.
+func c03SameBuffers(a, b enc.Wire) bool {
+	if len(a) != len(b) {
+		return false
+	}
+	for i := range a {
+		if !bytes.Equal(a[i], b[i]) {
+			return false
+		}
+	}
+	return true
 }
 
 func c03Raw(c *h.Ctx, id string, cs *pkt.Case, lay *pkt.Layout, b []byte, desc map[string]any) {
